@@ -1,5 +1,7 @@
 package rules
 
+import "golang.org/x/tools/go/ssa"
+
 func init() {
 	register(&Spec{
 		ID: "C04",
@@ -29,8 +31,10 @@ func init() {
 				c.R.Rule("C17.R2", 1, "a duplicate pattern+method is always rejected")
 				ruleDupCheck(c, "R2", inst)
 			}
+			ruleListDuplicates(c, "R2b")
 			ruleAddErrorNeverDropped(c, "R3")
 			ruleSummaryIsNotLiveness(c, "R4")
+			ruleSearchTriesEverySibling(c, "R5", []*ssa.Function{c.A.TreeAdd}, "a pattern identical up to parameter names to a live route is always rejected: the ambiguity search tries every sibling")
 		},
 	})
 	register(&Spec{
